@@ -179,7 +179,12 @@ def independent_ecies(vc):
     vc.prove("library-opens-an-independently-made-block", out2.returned and out2.value[1] == sk, repr(out2.exc))
     # refusal of invalid ephemeral points
     bad = []
-    for (bx, by) in [(ex, (ey + 1) % P256_P), (P256_P + 1, ey), (ex, P256_P + ey % 7), (0, 0)]:
+    from contracts.C19 import SMALL_Y_POINTS_P256, small_x_points_p256
+    # crafted: genuine curve points written with a coordinate >= p (x + p resp. y + p still fits in 32 bytes)
+    crafted = [(x, y + P256_P) for (x, y) in SMALL_Y_POINTS_P256] + [(x + P256_P, y) for (x, y) in small_x_points_p256()]
+    vc.prove("crafted-points-are-curve-points-mod-p", all(EM.on_curve((x % P256_P, y % P256_P), P256_A, P256_B, P256_P)
+                                                           and max(x, y) < (1 << 256) for x, y in crafted))
+    for (bx, by) in [(ex, (ey + 1) % P256_P), (P256_P + 1, ey), (ex, P256_P + ey % 7), (0, 0)] + crafted:
         vc.tick()
         if bx < P256_P and by < P256_P and EM.on_curve((bx, by), P256_A, P256_B, P256_P):
             continue
@@ -265,3 +270,12 @@ def dh_secret_width(vc):
     vc.prove("keys-loaded=own-private+peer-public-on-P-256",
              log == [("priv", b"PRIVATE-DER"), ("pub", b"PUBLIC-DER"), ("dh", C.NIST256p)])
     vc.cover("dh")
+
+
+# "unwrapping refuses ephemeral points that are not on the curve / have coordinates >= p": the decoded coordinates reach the
+# validating constructor unchanged and are tested against P-256 (contracts proved under C19, obligations here too)
+from pyvc.harness import reuse as _reuse
+from contracts import C19 as _C19x  # noqa: E402,F401
+_reuse("C19/VerifyingKey.from_string.decoded-point-reaches-validation-unchanged", "C09/unwrap.decoded-ephemeral-point-reaches-validation-unchanged")
+_reuse("C19/VerifyingKey.from_public_point.validates-against-the-key's-curve", "C09/unwrap.validated-against-P-256")
+_reuse("C19/Public_key.point-validation", "C09/unwrap.accepted<=>in-range-and-on-curve")
